@@ -340,8 +340,7 @@ Qed.
 
 Lemma node_calls_get : forall w n, posts (lr_calls (get_node_producer w n)) = [].
 Proof.
-  intros w n. unfold get_node_producer. destruct (w_node w) as [|h i]. reflexivity.
-  destruct i as [[b p]|]; reflexivity.
+  intros w n. unfold get_node_producer. destruct (w_node w); reflexivity.
 Qed.
 
 (* de-duplication *)
@@ -440,6 +439,47 @@ Definition post_to (uri qs : string) (a : aargs) (addrs : list bytes) : list uca
 
 Definition lookupd_addrs (w : world) : list bytes := map fst (w_lookupds w).
 
+(* one-step rules of the action interpreter *)
+Lemma cond_always : forall a, cond_holds "" a = Some true.
+Proof. reflexivity. Qed.
+
+Definition has_channel (a : aargs) : bool := negb (Nat.eqb (length (a_channel a)) 0).
+
+Lemma cond_channel : forall a, cond_holds "len(channelName) > 0" a = Some (has_channel a).
+Proof. reflexivity. Qed.
+
+Lemma step_hard : forall w a calls ps errs s,
+  ci_step w a (mkCi calls ps errs true) s = mkCi calls ps errs true.
+Proof. reflexivity. Qed.
+
+Lemma step_skip : forall w a st c x, cond_holds c a = Some false -> ci_step w a st (c, x) = st.
+Proof. intros w a st c x H. unfold ci_step. destruct (ci_hard st); [reflexivity|]. simpl. rewrite H. reflexivity. Qed.
+
+Lemma step_addrs : forall w a calls ps errs c uri qs, cond_holds c a = Some true ->
+  ci_step w a (mkCi calls ps errs false) (c, CAddrsPost uri qs) =
+  mkCi (calls ++ post_to uri qs a (lookupd_addrs w)) ps (errs + post_errs w (lookupd_addrs w))%nat false.
+Proof. intros w a calls ps errs c uri qs H. unfold ci_step. simpl. rewrite H. reflexivity. Qed.
+
+Lemma step_producers : forall w a calls ps errs c uri qs, cond_holds c a = Some true ->
+  ci_step w a (mkCi calls ps errs false) (c, CProducersPost uri qs) =
+  mkCi (calls ++ post_to uri qs a ps) ps (errs + post_errs w ps)%nat false.
+Proof. intros w a calls ps errs c uri qs H. unfold ci_step. simpl. rewrite H. reflexivity. Qed.
+
+Lemma step_get : forall w a calls ps errs c m r, cond_holds c a = Some true -> run_get w m a = Some r ->
+  ci_step w a (mkCi calls ps errs false) (c, CGet m) =
+  match lr_producers r with
+  | None => mkCi (calls ++ lr_calls r) [] errs true
+  | Some ps' => mkCi (calls ++ lr_calls r) ps' (errs + lr_errs r)%nat false
+  end.
+Proof. intros w a calls ps errs c m r H Hr. unfold ci_step. simpl. rewrite H, Hr. reflexivity. Qed.
+
+Lemma run_get_topic : forall w a, run_get w "GetTopicProducers" a = Some (get_topic_producers w (a_topic a)).
+Proof. reflexivity. Qed.
+Lemma run_get_lookupd : forall w a, run_get w "GetLookupdTopicProducers" a = Some (get_lookupd_topic_producers w (a_topic a)).
+Proof. reflexivity. Qed.
+Lemma run_get_node : forall w a, run_get w "GetNSQDProducers" a = Some (get_node_producer w (a_node a)).
+Proof. reflexivity. Qed.
+
 (* pause / unpause / empty of a topic or channel *)
 Lemma producer_action_eval : forall w a uri qs,
   let r := get_topic_producers w (a_topic a) in
@@ -450,10 +490,11 @@ Lemma producer_action_eval : forall w a uri qs,
                ci_errs st = (lr_errs r + post_errs w ps)%nat
   end.
 Proof.
-  intros w a uri qs. cbv zeta. unfold run_ci. simpl. unfold ci_step. simpl.
-  destruct (lr_producers (get_topic_producers w (a_topic a))) as [ps|] eqn:E; simpl.
-  - repeat split; reflexivity.
-  - split; reflexivity.
+  intros w a uri qs. cbv zeta. unfold run_ci. cbn [fold_left].
+  rewrite (step_get _ _ _ _ _ _ _ _ (cond_always a) (run_get_topic w a)).
+  destruct (lr_producers (get_topic_producers w (a_topic a))) as [ps|].
+  - rewrite (step_producers _ _ _ _ _ _ _ _ (cond_always a)). simpl. repeat split; reflexivity.
+  - rewrite step_hard. simpl. split; reflexivity.
 Qed.
 
 (* delete topic / delete channel: the nsqlookupds, then the producers found before *)
@@ -467,13 +508,13 @@ Lemma delete_action_eval : forall w a uri qs,
                ci_errs st = (lr_errs r + post_errs w (lookupd_addrs w) + post_errs w ps)%nat
   end.
 Proof.
-  intros w a uri qs. cbv zeta. unfold run_ci. simpl. unfold ci_step. simpl.
-  destruct (lr_producers (get_topic_producers w (a_topic a))) as [ps|] eqn:E; simpl.
-  - repeat split; reflexivity.
-  - split; reflexivity.
+  intros w a uri qs. cbv zeta. unfold run_ci. cbn [fold_left].
+  rewrite (step_get _ _ _ _ _ _ _ _ (cond_always a) (run_get_topic w a)).
+  destruct (lr_producers (get_topic_producers w (a_topic a))) as [ps|].
+  - rewrite (step_addrs _ _ _ _ _ _ _ _ (cond_always a)).
+    rewrite (step_producers _ _ _ _ _ _ _ _ (cond_always a)). simpl. repeat split; reflexivity.
+  - rewrite !step_hard. simpl. split; reflexivity.
 Qed.
-
-Definition has_channel (a : aargs) : bool := negb (Nat.eqb (length (a_channel a)) 0).
 
 (* create: topic on every nsqlookupd; with a channel also the channel on every
    nsqlookupd and on every producer the nsqlookupds list for the topic *)
@@ -495,12 +536,16 @@ Lemma create_action_eval : forall w a,
     end
   else ci_hard st = false /\ ci_calls st = post_to "topic/create" "topic=%s" a (lookupd_addrs w).
 Proof.
-  intros w a. cbv zeta. unfold run_ci, has_channel. simpl. unfold ci_step. simpl.
-  destruct (Nat.eqb (length (a_channel a)) 0) eqn:Ec; simpl.
-  - split; reflexivity.
-  - destruct (lr_producers (get_lookupd_topic_producers w (a_topic a))) as [ps|] eqn:E; simpl.
-    + split; reflexivity.
-    + split; reflexivity.
+  intros w a. cbv zeta. unfold run_ci. cbn [fold_left].
+  rewrite (step_addrs _ _ _ _ _ _ _ _ (cond_always a)).
+  pose proof (cond_channel a) as Hc.
+  destruct (has_channel a).
+  - rewrite (step_addrs _ _ _ _ _ _ _ _ Hc).
+    rewrite (step_get _ _ _ _ _ _ _ _ Hc (run_get_lookupd w a)).
+    destruct (lr_producers (get_lookupd_topic_producers w (a_topic a))) as [ps|].
+    + rewrite (step_producers _ _ _ _ _ _ _ _ Hc). simpl. split; reflexivity.
+    + rewrite step_hard. simpl. split; reflexivity.
+  - rewrite !(step_skip _ _ _ _ _ Hc). simpl. split; reflexivity.
 Qed.
 
 (* tombstone: every nsqlookupd, then topic/delete on the node itself *)
@@ -517,10 +562,12 @@ Lemma tombstone_action_eval : forall w a,
                              post_to "topic/delete" "topic=%s" a ps
   end.
 Proof.
-  intros w a. cbv zeta. unfold run_ci. simpl. unfold ci_step. simpl.
-  destruct (lr_producers (get_node_producer w (a_node a))) as [ps|] eqn:E; simpl.
-  - split; reflexivity.
-  - split; reflexivity.
+  intros w a. cbv zeta. unfold run_ci. cbn [fold_left].
+  rewrite (step_addrs _ _ _ _ _ _ _ _ (cond_always a)).
+  rewrite (step_get _ _ _ _ _ _ _ _ (cond_always a) (run_get_node w a)).
+  destruct (lr_producers (get_node_producer w (a_node a))) as [ps|].
+  - rewrite (step_producers _ _ _ _ _ _ _ _ (cond_always a)). simpl. split; reflexivity.
+  - rewrite step_hard. simpl. split; reflexivity.
 Qed.
 
 (* ---- the statements about run_action (what a handler runs) *)
@@ -799,3 +846,32 @@ Proof.
   - intro Hg. rewrite Hg. split. reflexivity. apply run_steps_no_gate_not_403. reflexivity.
   - intro Hg. destruct (config_gate (cf_cidr cfg) (rq_remote rq)); [contradiction| |]; simpl; auto.
 Qed.
+
+(* ------------------------------------------------------------------ the statements as C17 words them *)
+
+Lemma authorized_false_iff : forall cfg rq,
+  authorized cfg rq = false <-> cf_admins cfg <> [] /\ ~ In (identity cfg rq) (cf_admins cfg).
+Proof. intros cfg rq. unfold authorized. apply not_authorized_spec. Qed.
+
+Lemma authorized_true_iff : forall cfg rq,
+  authorized cfg rq = true <-> cf_admins cfg = [] \/ In (identity cfg rq) (cf_admins cfg).
+Proof. intros cfg rq. unfold authorized. apply is_authorized_spec. Qed.
+
+Theorem guarded_refused_full : forall cfg w p r rq,
+  find_route admin_routes (rq_method rq) p = RHandler r ->
+  existsb is_amut (ar_events r) = true ->
+  cf_admins cfg <> [] -> ~ In (identity cfg rq) (cf_admins cfg) ->
+  handle cfg w admin_routes p rq = refused.
+Proof.
+  intros cfg w p r rq Hf Hm H1 H2. eapply guarded_refused; eauto.
+  apply authorized_false_iff. split; assumption.
+Qed.
+
+Theorem authorized_as_open_full : forall cfg w p rq,
+  cf_admins cfg = [] \/ In (identity cfg rq) (cf_admins cfg) ->
+  handle cfg w admin_routes p rq = handle (open_cfg cfg) w admin_routes p rq.
+Proof. intros cfg w p rq H. apply authorized_as_open. apply authorized_true_iff. exact H. Qed.
+
+(* the routes the table classifies as state-changing, by method and path *)
+Definition state_changing_keys : list (string * string) :=
+  map (fun r => (ar_method r, ar_path r)) (filter state_changing admin_routes).
